@@ -30,13 +30,14 @@ SHIELD = {"engines": [chain("shield", 128, 1280, ops=160, tops=240)],
                           "only the bond denomination is used for shield, fees and losses", "genesis LastUpdateTime is the chain's start time (DefaultGenesisState stamps the wall clock)"]}
 
 PROPS = {
-    "C02": dict(SHIELD, lean=[]),
-    "C03": dict(SHIELD, lean=[]),
-    "C04": dict(SHIELD, lean=[]),
-    "C05": dict(SHIELD, lean=[]),
+    "C02": dict(SHIELD, lean=["Shentu.Props.C02"]),
+    "C03": dict(SHIELD, lean=["Shentu.Props.C03a", "Shentu.Props.C03b"]),
+    "C04": dict(SHIELD, lean=["Shentu.Props.C04"], assumptions=SHIELD["assumptions"] + [
+        "'taken from its bonded or unbonding stake' is observed on the real application (the coins arrive from the staking pools), the model moves them from the bonded pool only"]),
+    "C05": dict(SHIELD, lean=["Shentu.Props.C05"]),
     "C06": dict(SHIELD, lean=["Shentu.Props.C06"], assumptions=SHIELD["assumptions"] + [
         "the converse (a funded purchase meeting the conditions is accepted) is proved for purchases whose fee or stake does not truncate to zero (amount x rate >= 1 unit); with the default minimum purchase of 50 CTK this always holds; below it the module answers ErrNoShield"]),
-    "C07": dict(SHIELD, lean=[]),
+    "C07": dict(SHIELD, lean=["Shentu.Props.C07"]),
     "C09": {
         "lean": ["Shentu.Props.C09"],
         "engines": [chain("staking", 128, 1280, ops=150, tops=250), chain("shield", 32, 320, ops=160)],
@@ -44,6 +45,22 @@ PROPS = {
                     "the consensus view is accumulated by the harness from the EndBlock responses, starting from the bonded validators of genesis"],
         "assumptions": ["consensus public keys are unique among validators (refused otherwise by the SDK)", "power reduction 10^6 (the default)", "a tie in power exactly at the last seat is not decided by the monitor (counted as sit.c09.tie_at_the_cut)",
                         "genesis does not bond more validators than MaxValidators", "claim locks and payouts may postpone or shrink unbonding entries (shield profile): only 'never earlier' is checked there"],
+    },
+    "C10": {
+        "lean": ["Shentu.Props.C10"],
+        "engines": [chain("determinism", 80, 800, ops=100, tops=200)],
+        "trusted": ["modelled, not verified: the Go runtime, goleveldb, IAVL, the Cosmos SDK and Burrow (their own map iterations and caches are outside the inventory, which covers the repository's consensus code)",
+                    "the restart theorem assumes that a node's in-memory state is a function of its committed state; the restarted-node runs are the validation of that hypothesis"],
+        "assumptions": ["determinism of the Go code itself cannot be a theorem about a functional model (the model is deterministic by construction): the proof part is the regenerated inventory of nondeterminism sites, the order-independence of the one map iteration that feeds state, and restart invisibility under cache coherence; hash equality of real instances is decided by differential execution",
+                        "nodes are compared in one process (Go randomises every map iteration, so two instances in one process do see different orders)"],
+    },
+    "C20": {
+        "lean": ["Shentu.Props.C20"],
+        "engines": [chain("export", 96, 960, ops=100, tops=200)],
+        "trusted": SDK_TRUST + ["the comparison of the original and the imported node is made by the harness on the modules' exported genesis JSON and the harness's observations (bank, vesting, oracle, shield, gov, cert, cvm, staking, distribution); SDK modules without observers (slashing, mint, upgrade, evidence, ibc, crisis) are compared through the re-export only"],
+        "assumptions": ["Tendermint's convention: the state exported after block H is imported as the start of block H+1; height-indexed oracle deadlines move by that one block, and a task that was pending at the export is then aggregated one block later (its outcome may differ through what happens in that block: only collateral and withdrawals are compared for such histories)",
+                        "an address whose balance is zero is exported by the SDK bank module with an empty coin list and not stored on import: treated as equal",
+                        "the stored count of waiting blocks of a task is re-based to the remaining blocks on import"],
     },
     "C16": {
         "lean": ["Shentu.Props.C16"],
